@@ -238,7 +238,7 @@ def writer_stmt(kind, r, c, val):
     return mk
 
 
-def history_mixed(rng, p, sessions=None, clean="clean", report_all=True):
+def history_mixed(rng, p, sessions=None, clean="clean", report_all=True, cleannodes=False):
     """top-down and bottom-up sessions mixed, external changes (sources mostly), reference builds."""
     lines = [f"set {s} {rng.randint(0, 3)}" for s in p.sources]
     n = len(p.tasks)
@@ -251,6 +251,7 @@ def history_mixed(rng, p, sessions=None, clean="clean", report_all=True):
         lines += [f"req {t}" for t in roots]
         lines.append("endsession")
         lines.append(clean if clean != "clean" else "clean " + " ".join(map(str, roots)))
+        if cleannodes: lines.append("cleannodes")
         ch, changed = ext_changes(rng, p, k=rng.randint(1, 3), values=range(0, 4))
         lines += ch
     return lines
@@ -342,10 +343,15 @@ def case_panic(rng):
         t = rng.choice(sorted(p.tasks))
         guard = (rng.choice(p.sources), rng.randint(0, 3))
         p.tasks[t] = inject(rng, p.tasks[t], lambda nv, rest: ("panic",), guard if rng.random() < 0.85 else None)
-        return p.lines() + history_mixed(rng, p, sessions=rng.randint(3, 6)), dict(injected=f"panic in task {t} guard {guard}")
+        return p.lines() + history_mixed(rng, p, sessions=rng.randint(3, 6), cleannodes=True), dict(injected=f"panic in task {t} guard {guard}")
     f = rng.choice([case_hidden, case_overlap, case_cycle])
     body, meta = f(rng)
-    return body, meta
+    # add the from-scratch build of all known tasks after every reference build
+    out = []
+    for l in body:
+        out.append(l)
+        if l.startswith("clean "): out.append("cleannodes")
+    return out, meta
 
 
 def case_roles(rng):
@@ -404,3 +410,31 @@ def case_multichecker(rng):
         j = rng.randint(t + 1, len(p.tasks)); o1, o2 = rng.sample([0, 3, 4, 5], 2)
         p.tasks[t] = ("req", j, o1, ("req", j, o2, shift(p.tasks[t], 0, 2)))
     return p.lines() + history_td(rng, p), dict(multi_checker=True)
+
+
+def case_bu_dense(rng):
+    """C04: many scheduled tasks at once (every source changes in every round), requires of already scheduled tasks in
+    the middle of a build (require_scheduled_now with >= 3 queued tasks), value-dependent requires that flip."""
+    p = gen_program(rng, ntasks=rng.randint(7, 12), exact=rng.random() < 0.5, writes=rng.random() < 0.4)
+    n = len(p.tasks)
+    # add conditional requires of low-numbered tasks to high-numbered ones guarded by a source value, so that re-executing
+    # tasks newly require tasks that are scheduled themselves
+    for t in sorted(p.tasks)[: n // 2]:
+        if rng.random() < 0.7:
+            u = rng.randint(t + 1, n)
+            src = rng.choice(p.sources)
+            p.tasks[t] = inject(rng, p.tasks[t], binder("req", u, p.ochk.setdefault((t, u), rng.choice([0, 0, 4]))), (src, rng.randint(0, 2)))
+    lines = [f"set {s} {rng.randint(0, 2)}" for s in p.sources]
+    lines += ["session"] + [f"req {t}" for t in range(1, n + 1)] + ["endsession"]
+    for _ in range(rng.randint(2, 4)):
+        changed = []
+        for s in p.sources:
+            if rng.random() < 0.85:
+                lines.append(f"set {s} {rng.randint(0, 2)}"); changed.append(s)
+        if not changed:
+            lines.append(f"set {p.sources[0]} {rng.randint(3, 5)}"); changed.append(p.sources[0])
+        rng.shuffle(changed)
+        lines += ["session", "bu " + " ".join(map(str, changed))]
+        for _ in range(rng.randint(0, 2)): lines.append(f"req {rng.randint(1, n)}")
+        lines += ["endsession", "session", "reqknown", "endsession", "cleanknown"]
+    return p.lines() + lines
